@@ -29,6 +29,17 @@
   #define QUILL_MAGIC_SEPARATOR "\x01\x02\x03"
 #endif
 
+/**
+ * Verification yield/observation points. Expands to nothing unless QUILL_VERIF is defined, in
+ * which case the embedding test harness must provide quill_verif_point().
+ */
+#if defined(QUILL_VERIF)
+extern "C" void quill_verif_point(int id, void const* ptr);
+  #define QUILL_VERIF_POINT(id, ptr) quill_verif_point((id), (ptr))
+#else
+  #define QUILL_VERIF_POINT(id, ptr) ((void)0)
+#endif
+
 QUILL_BEGIN_NAMESPACE
 
 namespace detail
